@@ -18,13 +18,14 @@ def toSituation : String → Except String Situation
   | "presentDrifted" => pure .presentDrifted
   | "presentNoOwnerRef" => pure .presentNoOwnerRef
   | "absentConflict" => pure .absentConflict
+  | "presentDriftedRejected" => pure .presentDriftedRejected
   | s => throw s!"bad situation {s}"
 
 def actionName : Action → String
   | .noApiAtAll => "noApiAtAll" | .none => "none" | .create => "create" | .patch => "patch" | .delete => "delete"
 
 def outcomeName : OutcomeClass → String
-  | .ok => "ok" | .retry => "retry" | .precond => "precond"
+  | .ok => "ok" | .retry => "retry" | .precond => "precond" | .permFail => "permFail" | .raised => "raised"
 
 /-- {"op":"cell","flags":{"readonly":true|null,…,"update":"patch"|null,"createDelay":"11"|null,
      "updateDelay":…},"precond":bool,"sit":"absent"|…}  (null = the key is omitted from the spec) -/
